@@ -10,8 +10,8 @@
 From Coq Require Import ZifyBool ZifyN.
 From RU Require Import Base.Prelude Base.Utf8 Base.Utf8Facts Model.HostT Model.UrlRecord Model.Parser
   Model.KnownC01 Spec.Whatwg
-  Proofs.C02_Path Proofs.C01_EqRun Proofs.C01_EqDots Proofs.C01_EqPathSpec Proofs.C01_EqPath Proofs.C01_EqAuthSpec
-  Proofs.C01_EqClasses2 Proofs.C01_EqSpSpec Proofs.C01_EqSpPath Proofs.C01_EqSp.
+  Proofs.C02_Path Proofs.C08_Input Proofs.C01_EqEnc Proofs.C01_EqRun Proofs.C01_EqDots Proofs.C01_EqPathSpec Proofs.C01_EqPath Proofs.C01_EqAuthSpec
+  Proofs.C01_Tables Proofs.C01_EqOpaque Proofs.C01_EqClasses2 Proofs.C01_EqSpSpec Proofs.C01_EqSpPath Proofs.C01_EqSp.
 
 Local Ltac Zify.zify_post_hook ::= Z.div_mod_to_equations.
 
@@ -363,3 +363,92 @@ Qed.
 
 Lemma wrel_map P : wrel P (map k_wdl P).
 Proof. induction P as [|s P IH]; [constructor|]. cbn [map]. constructor; [intros H; exact H | exact IH]. Qed.
+
+(* ================= Known_C01 read on the Standard's scheme scan ================= *)
+Lemma scheme_cp_not_colon c : is_scheme_cp c = true -> (c =? 58) = false.
+Proof. unfold is_scheme_cp, is_alnum, is_alpha, is_upper, is_lower, is_digit. intros H. lia. Qed.
+
+Lemma scheme_scan_leading t : forall buf sch R, scheme_scan buf t = Some (sch, R) ->
+  leading_scheme_loop (rev buf) t = Some sch /\ after_colon t = R.
+Proof.
+  induction t as [|c r IH]; intros buf sch R H; [discriminate H|]. cbn [scheme_scan] in H.
+  cbn [leading_scheme_loop after_colon]. change (is_alnum c || (c =? 43) || (c =? 45) || (c =? 46)) with (is_scheme_cp c).
+  destruct (is_scheme_cp c) eqn:Ec.
+  - rewrite (scheme_cp_not_colon c Ec). specialize (IH _ _ _ H). rewrite rev_app_distr in IH. exact IH.
+  - destruct (c =? 58); [|discriminate H]. inversion H; subst. rewrite rev_involutive. split; reflexivity.
+Qed.
+
+Lemma scheme_scan_none_leading t : forall buf, scheme_scan buf t = None -> leading_scheme_loop (rev buf) t = None.
+Proof.
+  induction t as [|c r IH]; intros buf H; [reflexivity|]. cbn [scheme_scan] in H. cbn [leading_scheme_loop].
+  change (is_alnum c || (c =? 43) || (c =? 45) || (c =? 46)) with (is_scheme_cp c).
+  destruct (is_scheme_cp c) eqn:Ec.
+  - specialize (IH _ H). rewrite rev_app_distr in IH. exact IH.
+  - destruct (c =? 58); [discriminate H | reflexivity].
+Qed.
+
+Lemma spec_scheme_none_leading t : spec_scheme t = None -> leading_scheme t = None.
+Proof.
+  unfold spec_scheme, leading_scheme. destruct t as [|c r]; [reflexivity|].
+  destruct (is_alpha c); [|reflexivity]. exact (scheme_scan_none_leading (c :: r) []).
+Qed.
+
+Lemma spec_scheme_some_leading t sch R : spec_scheme t = Some (sch, R) -> leading_scheme t = Some sch /\ after_colon t = R.
+Proof.
+  unfold spec_scheme, leading_scheme. destruct t as [|c r]; [discriminate|].
+  destruct (is_alpha c); [|discriminate]. exact (scheme_scan_leading (c :: r) [] sch R).
+Qed.
+
+Lemma special_name sch : is_special_scheme_name sch = is_special_scheme sch.
+Proof. unfold is_special_scheme_name. apply special_schemes_are_the_standards. Qed.
+
+Lemma cleaned_spec_clean input : cleaned input = spec_clean input.
+Proof. change (cleaned input) with (ntnl (input_new_trim_c0 input)). symmetry. apply spec_clean_is_ntnl_trim. Qed.
+
+(* no base, a scheme *)
+Lemma known_exact_nobase input sch R :
+  spec_scheme (spec_clean input) = Some (sch, R) -> known_c01 None input = 0 ->
+  list_eqb sch str_file = false /\ k_absolute (is_special_scheme sch) R = 0.
+Proof.
+  intros Hs Hk. unfold known_c01 in Hk. cbv zeta in Hk. rewrite cleaned_spec_clean in Hk.
+  destruct (spec_scheme_some_leading _ _ _ Hs) as [E1 E2]. rewrite E1, E2 in Hk.
+  change s_file with str_file in Hk. rewrite special_name in Hk.
+  destruct (list_eqb sch str_file); [discriminate Hk|]. cbn [orb] in Hk. split; [reflexivity | exact Hk].
+Qed.
+
+(* a base, no scheme in the reference *)
+Lemma known_exact_base_noscheme b input :
+  spec_scheme (spec_clean input) = None -> known_c01 (Some b) input = 0 ->
+  list_eqb (b_scheme b) str_file = false
+  /\ k_relative (is_special_scheme (b_scheme b)) b (spec_clean input) = 0.
+Proof.
+  intros Hs Hk. unfold known_c01 in Hk. cbv zeta in Hk. rewrite cleaned_spec_clean in Hk.
+  rewrite (spec_scheme_none_leading _ Hs) in Hk.
+  change s_file with str_file in Hk. rewrite special_name in Hk.
+  destruct (list_eqb (b_scheme b) str_file); [discriminate Hk|]. cbn [orb] in Hk. split; [reflexivity | exact Hk].
+Qed.
+
+(* a base, a scheme in the reference *)
+Lemma known_exact_base_scheme b input sch R :
+  spec_scheme (spec_clean input) = Some (sch, R) -> known_c01 (Some b) input = 0 ->
+  list_eqb sch str_file = false
+  /\ (if is_special_scheme sch && list_eqb sch (b_scheme b) && negb (k_two_sl R)
+      then k_relative (is_special_scheme sch) b R else k_absolute (is_special_scheme sch) R) = 0.
+Proof.
+  intros Hs Hk. unfold known_c01 in Hk. cbv zeta in Hk. rewrite cleaned_spec_clean in Hk.
+  destruct (spec_scheme_some_leading _ _ _ Hs) as [E1 E2]. rewrite E1, E2 in Hk.
+  change s_file with str_file in Hk. rewrite special_name in Hk.
+  destruct (list_eqb sch str_file); [discriminate Hk|]. cbn [orb] in Hk. split; [reflexivity | exact Hk].
+Qed.
+
+(* with a scheme of its own and the base ignored, the base does not matter to Known_C01 *)
+Lemma known_exact_absolute b input sch R :
+  spec_scheme (spec_clean input) = Some (sch, R) ->
+  is_special_scheme sch && list_eqb sch (b_scheme b) && negb (k_two_sl R) = false ->
+  known_c01 (Some b) input = 0 -> known_c01 None input = 0.
+Proof.
+  intros Hs Hi Hk. destruct (known_exact_base_scheme b input sch R Hs Hk) as [Hf Hr]. rewrite Hi in Hr.
+  unfold known_c01. cbv zeta. rewrite cleaned_spec_clean.
+  destruct (spec_scheme_some_leading _ _ _ Hs) as [E1 E2]. rewrite E1, E2.
+  change s_file with str_file. rewrite special_name, Hf. cbn [orb]. exact Hr.
+Qed.
